@@ -93,6 +93,9 @@ def generate(seed: int, tier: str) -> dict:
         "drop_source": chance(orr, 0.4),
         "twice": chance(orr, 0.3),
         "restore_again": chance(orr, 0.35),
+        # member positions assigned by hand (survey-style set-ups do): any order within
+        # a group is legal, and it need not be the order of appearance
+        "positions_seed": orr.randrange(1, 1 << 30) if chance(orr, 0.3) else 0,
     }
 
 
@@ -104,6 +107,28 @@ def make_env(scn) -> seams.Env:
         return seams.Env(fs=fs)
     sched = seams.mem_schedule(env.get("mem", "high"), mem["max"] * 100.0, random.Random(env.get("mem_seed", 0)))
     return seams.Env(mem=seams.SimMem(sched), fs=fs)
+
+
+def hand_set_positions(sim, rng) -> bool:
+    """Give every group's members a seeded order of their own, through the public setter."""
+    import numpy
+
+    changed = False
+    for pop in sim.populations.values():
+        if pop.entity.is_person:
+            continue
+        ids = numpy.asarray(pop.members_entity_id)
+        positions = numpy.zeros(len(ids), dtype=numpy.int32)
+        for g in range(pop.count):
+            idx = [i for i in range(len(ids)) if ids[i] == g]
+            order = list(range(len(idx)))
+            rng.shuffle(order)
+            for i, pos in zip(idx, order):
+                positions[i] = pos
+        if (positions != numpy.asarray(pop.members_position)).any():
+            changed = True
+        pop.members_position = positions
+    return changed
 
 
 def trailing_empty_group(sim):
@@ -125,6 +150,9 @@ def run(scn) -> Result:
     try:
         with env:
             sim = build_sim(world, scn["situation"], scn["knobs"], scn["inputs"])
+            if scn.get("positions_seed"):
+                if hand_set_positions(sim, random.Random(scn["positions_seed"])):
+                    res.count("probe:member_positions_set_by_hand")
             for op in scn["ops"]:
                 out = apply_op(sim, world, op["do"])
                 H.add("O", op["do"][0], op["do"][1:], canon_outcome(out))
